@@ -700,6 +700,17 @@ def canonical_control(mod):
                         changed = True
                         todo.append(new.body)      # the wrapped rest is still the tail of the loop body
                         break
+                    # if c: A ...; continue   followed by rest   ==   if c: A ... else: rest      (same position: directly in the loop body or in its tail)
+                    if isinstance(st, ast.If) and len(st.body) >= 2 and isinstance(st.body[-1], ast.Continue) and not st.orelse and i + 1 < len(body) \
+                            and not any(isinstance(x, (ast.Continue, ast.Break)) for y in st.body[:-1] for x in ast.walk(y)):
+                        rest = body[i + 1:]
+                        new = ast.If(test=st.test, body=st.body[:-1], orelse=rest)
+                        ast.copy_location(new, st)
+                        body[i:] = [new]
+                        n += 1
+                        changed = True
+                        todo.append(new.orelse)
+                        break
             if changed:
                 break
         if changed:
@@ -937,6 +948,46 @@ def inline_new_constants(mod, pinned, repo_lookup=None):
     return n
 
 
+def lambdaify_new_closures(mod, pinned):
+    """B'. A *new* nested function that is nothing but ``return <expr>`` and whose name is read exactly once in the enclosing function (handed on as a
+    value) is the lambda it abbreviates:  def f(v): return E ; g(f)  ==  g(lambda v: E).  Only undecorated functions with plain positional parameters."""
+    n = 0
+    for host in [f for f in ast.walk(mod.tree) if isinstance(f, FUNC_TYPES)]:
+        for st in list(host.body):
+            if not isinstance(st, FUNC_TYPES) or isinstance(st, ast.AsyncFunctionDef) or st.decorator_list:
+                continue
+            q = None
+            for k, lst in mod.defs.items():
+                if any(x is st for x in lst):
+                    q = k
+            if q is None or q in pinned:
+                continue
+            a = st.args
+            if a.vararg or a.kwarg or a.kwonlyargs or a.posonlyargs or a.defaults:
+                continue
+            body = [b for b in st.body if not _is_docstring(b)]
+            if len(body) != 1 or not isinstance(body[0], ast.Return) or body[0].value is None:
+                continue
+            if any(isinstance(x, (ast.Yield, ast.YieldFrom, ast.Await)) for x in ast.walk(body[0])):
+                continue
+            uses = [x for x in ast.walk(host) if isinstance(x, ast.Name) and x.id == st.name and not any(anc is st for anc in _ancestors(x))]
+            stores = [x for x in uses if not isinstance(x.ctx, ast.Load)]
+            if len(uses) != 1 or stores or any(isinstance(x, ast.Name) and x.id == st.name for x in ast.walk(body[0])):
+                continue
+            use = uses[0]
+            if getattr(use, "lineno", 0) < st.lineno:
+                continue
+            lam = ast.Lambda(args=_clone(a), body=_clone(body[0].value))
+            _place([lam], use)
+            if _replace_expr(use, lam):
+                host.body.remove(st)
+                n += 1
+    if n:
+        ast.fix_missing_locations(mod.tree)
+        set_parents(mod.tree)
+    return n
+
+
 def normalise(mod):
     """Apply D, B, A, C, A.  Returns a small report dict."""
     rep = {"inlined": 0, "propagated": 0, "renamed": 0, "constants": 0}
@@ -958,7 +1009,11 @@ def normalise(mod):
         rep["inlined"] = inline_new_helpers(mod, pinned)
     except Exception:
         pass
-    if rep["inlined"]:
+    try:
+        rep["closures"] = lambdaify_new_closures(mod, pinned)
+    except Exception:
+        rep["closures"] = 0
+    if rep["inlined"] or rep.get("closures"):
         mod.reindex()
     # rename first (a renamed local must not be mistaken for a new temporary), propagate what is really new, then rename again
     # (a propagated temporary can restore the binding shape a pinned local is recognised by)
